@@ -10,6 +10,15 @@ def _run(ctx):
     with open(bad["out"], errors="replace") as f:
         if "Invariant C32_OneShotTerminates is violated" not in f.read():
             raise lib.ToolError("the as_shipped variant of RunLoop.tla is not rejected by TLC")
+    if pid == "C33":
+        # the update cycle at the grain of its calls, with failures at the start, at any publication point and in the cleanup
+        lib.tlc(ctx, "mc_processonce", "MC_ProcessOnce.tla", "MC_ProcessOnce.cfg", workers=2, timeout=600)
+        for v, inv in (("flags_split", "ServedIsComplete"), ("install_first", "C33_FailedRunChangesNothing")):
+            b2 = lib.tlc(ctx, "mc_processonce_bad_" + v, "MC_ProcessOnce.tla", "MC_ProcessOnce_bad_%s.cfg" % v, workers=2, timeout=600,
+                         expect_ok=False, count=False)
+            with open(b2["out"], errors="replace") as f:
+                if ("Invariant %s is violated" % inv) not in f.read():
+                    raise lib.ToolError("the seeded fault %s of ProcessOnce.tla is not rejected by TLC" % v)
     gen = lib.tlc(ctx, "gen_runloop", "MC_RunLoop.tla", "Gen_RunLoop_thorough.cfg" if ctx.thorough else "Gen_RunLoop.cfg",
                   workers=1, timeout=1200, count=False)
     beh = ctx.path("runloop.ndjson")
@@ -21,8 +30,9 @@ def _run(ctx):
     if r.get("notes", {}).get("child_errors", 0) > 0:
         raise lib.ToolError("child processes could not run the command")
     ctx.assumptions += [
-        "hook H5 forces the outcome of every validation run at the start of ValidationReport::process (a run failing "
-        "half-way is not forced; it never reaches SharedHistory::update either)",
+        "hook H5 forces the outcome of every validation run at the start of ValidationReport::process; failures inside the "
+        "run (C33) come from the world: a truncated (fatal) or missing (initial run: retry) stored publication point on a real "
+        "repository, with one and three validation threads; a failure in the cleanup is in the model only",
         "the commands run through Operation::run in a child process of the harness (what main.rs does), with an empty TAL directory",
         "C34 tolerates +-10 s on waits given in units of 100 s",
     ]
@@ -31,7 +41,8 @@ def _run(ctx):
                "command runs in a child process; observed number of validation runs, exit status, termination (a command reaching 50 "
                "runs counts as looping forever); non-trivial = sequence with a retryable failure",
         "C33": "every outcome sequence with at least one failure on a real server fixture: around each failed run the serial, ETag, "
-               "served /json data, RTR reset answer are compared and a pending notify long-poll must stay pending",
+               "served /json data, RTR reset answer are compared and a pending notify long-poll must stay pending; the same around "
+               "runs that fail after part of the tree has been validated (damaged store on a real repository)",
         "C34": "full table refresh x min-refresh (or unset) x data-set expiry (or none) in units of 100 s: a real run over a generated "
                "repository whose manifest expires at the chosen time, then mark_update_done and refresh_wait; non-trivial = min-refresh "
                "set and different from refresh, or expiry before the refresh point",
@@ -47,7 +58,8 @@ CHECKS = {
     "C32": {"run": _run, "engine": "RunLoop", "technique": _TECH, "design_ref": "4/C32", "level_note": _NOTE,
             "level_text": "All sequences of run outcomes up to the bound for all four commands, replayed with the real command code."},
     "C33": {"run": _run, "engine": "RunLoop", "technique": _TECH, "design_ref": "4/C33", "level_note": _NOTE,
-            "level_text": "All interleavings of successful and failed runs up to the bound against a real server; every observable compared around each failed run."},
+            "level_text": "All interleavings of successful and failed runs up to the bound against a real server; every observable compared around each failed run. "
+                          "ProcessOnce.tla: failure at the start, at every publication point (any worker order) and in the cleanup, two seeded faults rejected."},
     "C34": {"run": _run, "engine": "RunLoop", "technique": _TECH, "design_ref": "4/C34", "level_note": _NOTE,
             "level_text": "Complete refresh / min-refresh / expiry table (100 rows) against the real history with real data-set expiry times."},
 }
